@@ -313,6 +313,14 @@ func (m *Machine) exec(fr *frame, ins ssa.Instruction) {
 		idx := m.get(fr, i.Index).(*Term)
 		switch a := x.(type) {
 		case *ArrayV:
+			if _, scalar := i.X.Type().Underlying().(*types.Array).Elem().Underlying().(*types.Basic); scalar && !idx.IsConst() && len(a.E) > 8 && !isString(i.X.Type().Underlying().(*types.Array).Elem()) {
+				if !m.Branch(m.S.ULt(idx, m.S.Const(idx.W, uint64(len(a.E))))) {
+					m.goPanicStr(fmt.Sprintf("runtime error: index out of range [symbolic] with length %d", len(a.E)))
+				}
+				tmp := m.newObject(i.X.Type(), a, "tmparray")
+				fr.regs[i] = m.selectSym(Ptr{Obj: tmp, Sym: idx})
+				return
+			}
 			k := m.index(idx, len(a.E))
 			fr.regs[i] = copyVal(a.E[k])
 		case Str:
@@ -329,9 +337,18 @@ func (m *Machine) exec(fr *frame, ins ssa.Instruction) {
 			k := m.index(idx, a.Len)
 			fr.regs[i] = sliceElem(a, k)
 		case Ptr:
-			n := int(i.X.Type().Underlying().(*types.Pointer).Elem().Underlying().(*types.Array).Len())
+			at := i.X.Type().Underlying().(*types.Pointer).Elem().Underlying().(*types.Array)
+			n := int(at.Len())
 			if a.Obj == nil {
 				m.goPanicStr("runtime error: invalid memory address or nil pointer dereference")
+			}
+			if _, scalar := at.Elem().Underlying().(*types.Basic); scalar && !idx.IsConst() && n > 8 && n <= 4096 && !isString(at.Elem()) && a.Sym == nil {
+				// symbolic index into a scalar table: keep it symbolic (select) instead of forking on its value
+				if !m.Branch(m.S.ULt(idx, m.S.Const(idx.W, uint64(n)))) {
+					m.goPanicStr(fmt.Sprintf("runtime error: index out of range [symbolic] with length %d", n))
+				}
+				fr.regs[i] = Ptr{Obj: a.Obj, Path: a.Path, Sym: idx}
+				return
 			}
 			k := m.index(idx, n)
 			fr.regs[i] = sub(a, k)
